@@ -1741,6 +1741,69 @@ pub mod verif {
     }
 
     /**
+    Build a real [`FileSet`] over an injected environment.
+
+    This function does what [`FileSetBuilder::spawn`] does, with the same channel, background thread, and worker, except that the filesystem, clock, source of randomness, and channel capacity are given by the caller instead of being the system ones.
+    */
+    pub fn spawn_with(
+        fs: impl VerifFilesystem + Send + Sync + 'static,
+        clock: impl Clock + Send + Sync + 'static,
+        rng: impl Rng + Send + Sync + 'static,
+        file_set: impl AsRef<Path>,
+        roll_by: VerifRollBy,
+        reuse_files: bool,
+        max_files: usize,
+        max_file_size_bytes: usize,
+        separator: &'static [u8],
+        writer: impl Fn(&mut FileBuf, &emit::Event<&dyn emit::props::ErasedProps>) -> io::Result<()>
+            + Send
+            + Sync
+            + 'static,
+        channel_capacity: usize,
+    ) -> Result<FileSet, Error> {
+        let metrics = Arc::new(InternalMetrics::default());
+
+        let (dir, file_prefix, file_ext) = super::dir_prefix_ext(file_set)?;
+
+        let mut worker = Worker::new(
+            metrics.clone(),
+            FilesystemAdapter(fs),
+            clock,
+            rng,
+            dir,
+            file_prefix,
+            file_ext,
+            match roll_by {
+                VerifRollBy::Day => RollBy::Day,
+                VerifRollBy::Hour => RollBy::Hour,
+                VerifRollBy::Minute => RollBy::Minute,
+            },
+            reuse_files,
+            max_files,
+            max_file_size_bytes,
+            separator,
+        );
+
+        let (sender, receiver) = emit_batcher::bounded(channel_capacity);
+
+        let handle = emit_batcher::sync::spawn("emit_file_worker", receiver, move |batch| {
+            worker.on_batch(batch)
+        })
+        .map_err(Error::new)?;
+
+        Ok(FileSet {
+            metrics: metrics.clone(),
+            inner: Some(FileSetInner {
+                sender,
+                metrics,
+                writer: Box::new(writer),
+                separator,
+                _handle: handle,
+            }),
+        })
+    }
+
+    /**
     Split a file set template into the directory, file prefix, and file extension the worker is given.
     */
     pub fn dir_prefix_ext(file_set: impl AsRef<Path>) -> Result<(String, String, String), Error> {
